@@ -179,7 +179,7 @@ func main() {
 		"a failing node fails by returning the error from its body, or (native stream producers) by sending one good chunk and then an error item; any error counts as 'a failure is reported' (identity of the error is C13's business)",
 		"hangs are detected by a 120 s guard per program, panics by recover around each call and by the worker journal",
 	}
-	c.Res.Explanation = "Alphabet: shape menu {string lines of 2-3 nodes, map line; pass-through alone / first / twice in the middle / at a fan-in / at a fan-out; fan-out to END, fan-in (any-predecessor and all-predecessor), diamond (4 nodes); value branch, stream branch reading only the first chunk (after a node and directly on START), a node with a plain edge plus a (value / stream) branch, value / stream multi-branch selecting one or both targets; WithInputKey+WithOutputKey on a line / both into END / into a fan-in; state pre+post handlers in value and stream form (4 mixes on a line; value and stream on a fan-in node), pass-through with a state handler; graph input typed any (line, value branch, stream branch on START) and a sub-graph with output typed any feeding a fan-out (run-time type checks in value and stream form); Workflow with MapFields/ToField/FromField (two mapped inputs, fan with nested ToField, whole-input FromField into a string node), static values, control-only dependency, struct fields mapped in both directions; nested graph, nested string graph behind input+output key; chain with a parallel stage (first / last), chain branch} x every assignment of {I, S, C, T, I+S, S+T, I+S+C+T} to the lambda positions (7^n, n<=4, complete) x output chunking of every native stream producer in {1, 2, 3 with a chunk that is empty (string '' / map {} lacking the key)} (thorough: + map chunk with a zero-length value, 4 chunks) x graph input chunking {1, 2, 3 with an empty chunk, map chunk with zero-length values, per key for two-key inputs} (thorough: + 4) x {Invoke, Stream, Collect, Transform} on the same compiled runnable; branch shapes with both inputs (each target taken). Plus, per shape, every kind assignment x every position failing x {error at call time, error item after the first chunk}. Model: composition of the pure node function along the shape. Oracle = the statement: Invoke(x) = model; concat(Stream(x)) = Invoke(x); Collect(chunks) = Invoke(concat chunks); concat(Transform(chunks)) likewise; with a failing node on the executed path every paradigm reports a failure (call error or error item); never a panic out of a call, never a hang. Thorough adds the 4-node string line and the all-predecessor diamond."
+	c.Res.Explanation = "Alphabet: shape menu {string lines of 2-3 nodes, map line; pass-through alone / first / twice in the middle / at a fan-in / at a fan-out; fan-out to END, fan-in (any-predecessor and all-predecessor; END merging 5 and 6 streams), diamond (4 nodes); value branch, stream branch reading only the first chunk (after a node and directly on START), a node with a plain edge plus a (value / stream) branch, value / stream multi-branch selecting one or both targets; WithInputKey+WithOutputKey on a line / both into END / into a fan-in; state pre+post handlers in value and stream form (4 mixes on a line; value and stream on a fan-in node), pass-through with a state handler; graph input typed any (line, value branch, stream branch on START) and a sub-graph with output typed any feeding a fan-out (run-time type checks in value and stream form); Workflow with MapFields/ToField/FromField (two mapped inputs, fan with nested ToField, whole-input FromField into a string node), static values, control-only dependency, struct fields mapped in both directions; nested graph, nested string graph behind input+output key; chain with a parallel stage (first / last), chain branch, chain multi-branch (value / stream form) selecting a key that is no branch of it} x every assignment of {I, S, C, T, I+S, S+T, I+S+C+T} to the lambda positions (7^n, n<=4, complete) x output chunking of every native stream producer in {1, 2, 3 with a chunk that is empty (string '' / map {} lacking the key)} (thorough: + map chunk with a zero-length value, 4 chunks) x graph input chunking {1, 2, 3 with an empty chunk, map chunk with zero-length values, per key for two-key inputs} (thorough: + 4) x {Invoke, Stream, Collect, Transform} on the same compiled runnable; branch shapes with both inputs (each target taken). Plus, per shape, every kind assignment x every position failing x {error at call time, error item after the first chunk}. Model: composition of the pure node function along the shape. Oracle = the statement: Invoke(x) = model; concat(Stream(x)) = Invoke(x); Collect(chunks) = Invoke(concat chunks); concat(Transform(chunks)) likewise; with a failing node on the executed path every paradigm reports a failure (call error or error item); never a panic out of a call, never a hang. Thorough adds the 4-node string line and the all-predecessor diamond."
 
 	quick := c.Quick()
 	if v := c.LoadReplay(); v != nil {
